@@ -57,6 +57,13 @@ def run_models(out, tier, seed):
     unexpected = [x for x in sigs if x not in ("DeclaredOnlySupplied",)]
     if unexpected:
         out.drift.append(f"XformStmts derives difference classes that are not recorded findings: {unexpected}")
+    # the same laws on the mechanism as it was before the repairs: every repaired difference class must show up (the laws discriminate)
+    r0 = core.run_tlc("XformStmtsMC", "XformStmtsOld.cfg", workers=1, timeout=900)
+    out.add_tlc("XformStmtsMC[before the repairs]", r0)
+    old = {t[1] for t in r0.tagged("SIGNATURE")}
+    missing = {"LoopTargetNotImplemented", "WithTargetNoEvent", "FallOffNoValue", "MatchCaptureTakenForGlobal"} - old
+    if missing:
+        out.drift.append(f"XformStmts: the pre-repair mechanism no longer shows {sorted(missing)} (vacuous laws?)")
     # the assignment shapes for real: single-variable probes, the stream against Python's binding history (TraceXformMech)
     XC.run(out, tier, seed, {"Stream"}, ["singles"], 120 if tier == "quick" else 0)
 
